@@ -6,8 +6,8 @@ use crate::rng::fnv1a;
 use crate::srv::C;
 use dropshot::{
     ApiDescription, ApiEndpoint, ApiEndpointVersions, HttpError, HttpResponseOk,
-    MultipartBody, Path, Query, RequestContext, StreamingBody, TypedBody,
-    UntypedBody,
+    MultipartBody, PaginationParams, Path, Query, RequestContext, StreamingBody,
+    TypedBody, UntypedBody, WhichPage,
 };
 use futures::StreamExt;
 use http::Method;
@@ -81,6 +81,18 @@ pub struct BodyF {
     pub e: Color,
     pub o: Option<String>,
     pub uid: u64,
+}
+/// scan parameters of the paginated echo endpoint (first-page requests)
+#[derive(Deserialize, Serialize, JsonSchema, Clone, Debug)]
+pub struct ScanP {
+    pub s: String,
+    pub o: Option<String>,
+    pub n: Option<u32>,
+    pub uid: u64,
+}
+#[derive(Deserialize, Serialize, JsonSchema, Clone, Debug)]
+pub struct PageSel {
+    pub last: String,
 }
 #[derive(Deserialize, Serialize, JsonSchema, Clone, Debug)]
 pub struct QUid {
@@ -250,6 +262,18 @@ pub async fn h_multi(rqctx: RequestContext<C>, b: MultipartBody) -> Result<HttpR
     let args = json!({"fields": fields, "total": total});
     done(&rqctx, uid, meta, args)
 }
+pub async fn h_pag(
+    rqctx: RequestContext<C>,
+    q: Query<PaginationParams<ScanP, PageSel>>,
+) -> Result<HttpResponseOk<Value>, HttpError> {
+    let (uid, meta) = enter(&rqctx).await;
+    let q = q.into_inner();
+    let args = match &q.page {
+        WhichPage::First(scan) => json!({"which": "first", "scan": {"s": scan.s, "o": scan.o, "n": scan.n, "uid": scan.uid}}),
+        WhichPage::Next(sel) => json!({"which": "next", "selector": {"last": sel.last}}),
+    };
+    done(&rqctx, uid, meta, args)
+}
 pub async fn h_health(rqctx: RequestContext<C>) -> Result<HttpResponseOk<Value>, HttpError> {
     let (uid, meta) = enter(&rqctx).await;
     done(&rqctx, uid, meta, json!({}))
@@ -272,6 +296,7 @@ pub fn echo_api(overrides: &[usize]) -> ApiDescription<C> {
     reg(ApiEndpoint::new("pathn".into(), h_pathn, Method::GET, j, "/pn/{u}/{i}/{f}/{flag}/{e}", all()));
     reg(ApiEndpoint::new("pathw".into(), h_pathw, Method::GET, j, "/w/{rest:.*}", all()).visible(false));
     reg(ApiEndpoint::new("query".into(), h_query, Method::GET, j, "/q", all()));
+    reg(ApiEndpoint::new("pag".into(), h_pag, Method::GET, j, "/pag", all()));
     reg(ApiEndpoint::new("health".into(), h_health, Method::GET, j, "/health", all()));
     reg(ApiEndpoint::new("boom".into(), h_panic, Method::GET, j, "/boom", all()));
     let mut lims: Vec<Option<usize>> = vec![None];
